@@ -158,6 +158,11 @@ fn run_caught(e: &Entry, input: &[u8]) -> Ran {
         Ok(o) => Ran::Out(o),
         Err(p) => {
             let file = norm_file(p.file());
+            // the one finding the entry functions report themselves (entries.rs, unchanged_after_rejection):
+            // "a rejected input has no effect on later calls" for the object handed in by `&mut`
+            if p.text.contains("returned an error but changed the object it was given") {
+                return Ran::Panic("rejected-input-changed-its-argument".into(), p.text);
+            }
             if file.starts_with("mc-nopanic/") || file.contains("/verif/mc/") || file.starts_with("engine/") {
                 machinery_error(&format!("the harness itself panicked: {}", p.text));
             }
